@@ -15,10 +15,10 @@
 (* at the START of its last page.  BackUpRule / HandOver: see VFSeek.      *)
 (***************************************************************************)
 EXTENDS VFSeek, TLC
-CONSTANTS MaxPages, EndAt, Lens, Chunk, Read, BackUpRule, HandOver
-VARIABLES lens, kind, tail, target, off0
-vars == <<lens, kind, tail, target, off0>>
-K == [chunk |-> Chunk, near |-> 3, read |-> Read, backup |-> BackUpRule, handover |-> HandOver]
+CONSTANTS MaxPages, EndAt, Lens, Chunk, Reads, BackUpRule, HandOver
+VARIABLES lens, kind, tail, target, off0, rd      \* rd: the unit in which data enters the sync buffer (what a boundary-0 read can still see depends on it; the result must not)
+vars == <<lens, kind, tail, target, off0, rd>>
+K == [chunk |-> Chunk, near |-> 3, read |-> rd, backup |-> BackUpRule, handover |-> HandOver]
 \* kind[i]: 0 foreign page, 1 ours without granule position, 2 ours with granule position
 Off(l, i) == LET RECURSIVE S(_) S(j) == IF j = 0 THEN 0 ELSE S(j - 1) + l[j] IN S(i - 1)
 Gp(k, i) == 3 * Cardinality({ j \in 1..i : k[j] = 2 })          \* our granule-bearing pages end at 3, 6, 9, ...
@@ -34,6 +34,7 @@ Init == /\ lens \in UNION { [1..n -> Lens] : n \in 1..MaxPages }
         /\ tail \in {0, 1}
         /\ target \in 0..(EndTime - 1)                           \* 0 <= pos < total
         /\ off0 \in {0, LinkEnd}
+        /\ rd \in Reads
 Next == UNCHANGED vars
 Spec == Init /\ [][Next]_vars
 
